@@ -79,6 +79,7 @@ def main_lemma(run):
                                     {"raises": repr(r.value)}, replay=lambda m, s, i=dict(inst): replay(m, s, i))
                             continue
                         nret += 1
+                        E.focus(r)
                         q, d = r.value
                         run.add(f"C02/result-shape[{tag}]/path{pi}", r.hyps,
                                 z3.And(lib.shape_eq(d.shape, ds), lib.shape_eq(q.fields["_w_size"], ds),
@@ -228,7 +229,7 @@ def prog(t, qtype, axis, scale, zeropoint):
                         run.add(f"C02/F-no-exception[{tag}]/path{pi}:{r.value.tname}", r.hyps, z3.BoolVal(False), "property", inst)
                     continue
                 q, d, q2 = r.value
-                E.ps["touched"] = []
+                E.focus(r)
                 c1 = q.fields["_data"].fields["_ghost_codes"].elem([i, j])
                 c2 = q2.fields["_data"].fields["_ghost_codes"].elem([i, j])
                 dq = d.elem([i, j])
